@@ -114,6 +114,8 @@ def runFmt (r : Report) (sec : Nat) (line : Nat) (cfg : List String) (obs : List
   | "empty" :: rest =>
     -- the empty source: format.Source is run in a child process (it may terminate the process)
     r := r.addCover "empty-source"
+    -- only the dedicated section is judged (shrinking a failing program may pass through the empty source)
+    if cls0 != "empty-source" then return r.addCover "empty-source-not-judged"
     let res := kvStr rest "result"
     if res == "err" then return r.addCover "empty-source-error"
     if res == "ok" then return r.addCover "empty-source-ok"
